@@ -18,7 +18,8 @@ Open Scope Z_scope.
 (** * Kernel side *)
 
 Inductive opk := ORead | ORecv | OWrite | OSend.
-Inductive rkind := KPipeR | KPipeW | KSock | KClosed.
+(** [KSealed]: an empty memfd sealed against writing (F_SEAL_WRITE) *)
+Inductive rkind := KPipeR | KPipeW | KSock | KClosed | KSealed.
 
 (** what the case says about a descriptor: kind, bytes preloaded, peer closed, SO_RCVTIMEO set *)
 Record rspec := { rs_kind : rkind; rs_pre : Z; rs_eof : bool; rs_timed : bool }.
@@ -37,6 +38,7 @@ Definition stream (r : nat) (from n : Z) : list Z := sbytes r from (Z.to_nat n).
 
 Inductive cls := CErr (e : Z) | CRead | CWrite.
 
+Definition EPERM := 1.
 Definition EBADF := 9.
 Definition EPIPE := 32.
 Definition ENOTSOCK := 88.
@@ -54,9 +56,12 @@ Definition classify (k : rkind) (o : opk) : cls :=
   | KSock, ORead => CRead
   | KSock, ORecv => CRead
   | KSock, _ => CWrite
+  | KSealed, ORead => CRead          (* nothing in it: end of stream at once *)
+  | KSealed, OWrite => CErr EPERM    (* the completion value is exactly -1 *)
+  | KSealed, _ => CErr ENOTSOCK
   end.
 
-Definition readable (k : rkind) : bool := match k with KPipeR | KSock => true | _ => false end.
+Definition readable (k : rkind) : bool := match k with KPipeR | KSock | KSealed => true | _ => false end.
 
 Inductive kres := KPend | KDone (v : Z) (bytes : list Z) (r' : rstate).
 
